@@ -81,10 +81,9 @@ var f10Exits = []f10exit{
 		"safer_§(v)\nprintln(\"after-call\", v)", false},
 	{"recursive-call-returning-from-its-range", "func rec_§(xs []int, d int) int {\n\tfor i, v := range xs {\n\t\tif d > 0 {\n\t\t\tr := rec_§(xs, d-1)\n\t\t\tprintln(\"rec\", d, i, r)\n\t\t}\n\t\tif v == 2 {\n\t\t\treturn v*10 + d\n\t\t}\n\t}\n\treturn -1\n}\n",
 		"println(\"walk\", rec_§([]int{1, 2, 3}, v-1))\nprintln(\"after-call\", v)", false},
-	{"tree-walk", "type N_§ struct {\n\tv    int\n\tkids []*N_§\n}\n\nfunc walk_§(n *N_§, x int) bool {\n\tprintln(\"visit\", n.v)\n\tif n.v == x {\n\t\treturn true\n\t}\n\tfor _, k := range n.kids {\n\t\tif walk_§(k, x) {\n\t\t\treturn true\n\t\t}\n\t}\n\treturn false\n}\n",
-		"t := &N_§{0, []*N_§{{1, []*N_§{{4, nil}, {5, nil}}}, {2, nil}, {3, []*N_§{{6, nil}}}}}\nprintln(\"found\", walk_§(t, v+3))\nprintln(\"after-call\", v)", false},
+	{"tree-walk", "var kids_§ = [][]int{{1, 2, 3}, {4, 5}, {}, {6}, {}, {}, {}}\n\nfunc walk_§(n, x int) bool {\n\tprintln(\"visit\", n)\n\tif n == x {\n\t\treturn true\n\t}\n\tfor _, k := range kids_§[n] {\n\t\tif walk_§(k, x) {\n\t\t\treturn true\n\t\t}\n\t}\n\treturn false\n}\n",
+		"println(\"found\", walk_§(0, v+3))\nprintln(\"after-call\", v)", false},
 	{"closure-call-returning-from-its-range", "", "f := func(x int) int {\nfor i, w := range []int{1, 2, 3} {\nif w == x {\nreturn i\n}\n}\nreturn -1\n}\nprintln(\"found\", f(v))\nprintln(\"after-call\", v)", false},
-	{"many-calls-returning-from-their-range", f10Find, "if v == 1 {\ns := 0\nfor k := 0; k < 200000; k++ {\ns += find_§([]int{1, 2, 3}, 2)\n}\nprintln(\"sum\", s)\n}\nprintln(\"body\", v)", false},
 	{"labelled-continue-of-outer-range", "", "if v == 2 {\ncontinue Outer\n}\nprintln(\"body\", v)", true},
 	{"labelled-break-of-outer-range", "", "if v == 2 && w == 20 {\nbreak Outer\n}\nprintln(\"body\", v)", true},
 }
@@ -108,52 +107,71 @@ func f10Loop(r f10range, e f10exit) string {
 	return b.String()
 }
 
-func f10TransferFamily() *goprog.Family {
-	type combo struct{ r, e, p int }
-	var cs []combo
-	// simplest first: exit kind is the most significant digit, then position, then range kind
-	for e := range f10Exits {
-		for p := range f10Positions {
-			for r := range f10Ranges {
-				cs = append(cs, combo{r, e, p})
-			}
+// f10Case builds the program of one (range, exit, position) triple.
+func f10Case(i uint64, r f10range, e f10exit, pos string) goprog.Case {
+	sfx := fmt.Sprint(i)
+	rep := func(s string) string { return strings.ReplaceAll(s, "§", sfx) }
+	decls := rep(e.decls)
+	if r.name == "chan" {
+		decls += rep("func mkch_§() chan int {\n\tch := make(chan int, 3)\n\tch <- 1\n\tch <- 2\n\tch <- 3\n\tclose(ch)\n\treturn ch\n}\n")
+	}
+	loop := rep(f10Loop(r, e))
+	var body string
+	switch pos {
+	case "function-body":
+		body = "c := " + rep(r.build) + "\n" + loop + "println(\"end\")\n"
+	case "helper-range-first-statement":
+		decls += rep("func h_§(c "+r.typ+") {\n") + loop + "}\n"
+		body = "h_" + sfx + "(" + rep(r.build) + ")\nprintln(\"end\")\n"
+	case "closure":
+		body = "c := " + rep(r.build) + "\nfunc() {\n" + loop + "}()\nprintln(\"end\")\n"
+	case "deferred-function":
+		body = "c := " + rep(r.build) + "\ndefer func() {\n" + loop + "}()\nprintln(\"end\")\n"
+	}
+	return goprog.Case{
+		Decls:          decls,
+		Body:           body,
+		Key:            "family=range-transfer range=" + r.name + " exit=" + e.name + " loop-in=" + pos,
+		CoarseBuildErr: true,
+		Attrs:          map[string]any{"family": "range-transfer", "range": r.name, "exit": e.name, "loop_in": pos},
+	}
+}
+
+// f10TransferFamilies returns one small family per (exit kind, loop position),
+// simplest first; each ranges over every range kind. (Separate families are
+// separate chunks of work: a program that a defect turns into an endless loop
+// costs its worker the whole time-out, so they must not queue up behind each
+// other.)
+func f10TransferFamilies() []*goprog.Family {
+	var fams []*goprog.Family
+	for _, e := range f10Exits {
+		for _, pos := range f10Positions {
+			e, pos := e, pos
+			fams = append(fams, &goprog.Family{
+				Name:          "F10.range-transfer/" + e.name + "/" + pos,
+				Size:          uint64(len(f10Ranges)),
+				Timeout:       2 * time.Second, // a miscompiled loop may run (and print) for ever: the context stops it
+				RunawayOutput: 16 << 10,
+				Gen:           func(i uint64) goprog.Case { return f10Case(i, f10Ranges[i], e, pos) },
+			})
 		}
 	}
-	return &goprog.Family{
-		Name:    "F10.range-transfer",
-		Size:    uint64(len(cs)),
-		Timeout: 6 * time.Second, // a miscompiled loop may run (and print) for ever: the context stops it
-		Gen: func(i uint64) goprog.Case {
-			c := cs[i]
-			r, e, pos := f10Ranges[c.r], f10Exits[c.e], f10Positions[c.p]
-			sfx := fmt.Sprint(i)
-			rep := func(s string) string { return strings.ReplaceAll(s, "§", sfx) }
-			decls := rep(e.decls)
-			if r.name == "chan" {
-				decls += rep("func mkch_§() chan int {\n\tch := make(chan int, 3)\n\tch <- 1\n\tch <- 2\n\tch <- 3\n\tclose(ch)\n\treturn ch\n}\n")
-			}
-			loop := rep(f10Loop(r, e))
-			var body string
-			switch pos {
-			case "function-body":
-				body = "c := " + rep(r.build) + "\n" + loop + "println(\"end\")\n"
-			case "helper-range-first-statement":
-				decls += rep("func h_§(c "+r.typ+") {\n") + loop + "}\n"
-				body = "h_" + sfx + "(" + rep(r.build) + ")\nprintln(\"end\")\n"
-			case "closure":
-				body = "c := " + rep(r.build) + "\nfunc() {\n" + loop + "}()\nprintln(\"end\")\n"
-			case "deferred-function":
-				body = "c := " + rep(r.build) + "\ndefer func() {\n" + loop + "}()\nprintln(\"end\")\n"
-			}
-			return goprog.Case{
-				Decls:          decls,
-				Body:           body,
-				Key:            "family=range-transfer range=" + r.name + " exit=" + e.name + " loop-in=" + pos,
-				CoarseBuildErr: true,
-				Attrs:          map[string]any{"family": "range-transfer", "range": r.name, "exit": e.name, "loop_in": pos},
-			}
-		},
+	// many calls that return from inside their range loop: every call must give
+	// its frame back. A leak shows as a Go stack overflow that kills the process;
+	// main() lowers the maximum stack size (MaxHostStack) so that 400000 leaked
+	// frames are enough.
+	manyExit := f10exit{"400000-calls-returning-from-their-range", f10Find,
+		"if v == 1 {\ns := 0\nfor k := 0; k < 400000; k++ {\ns += find_§([]int{1, 2, 3}, 2)\n}\nprintln(\"sum\", s)\n}\nprintln(\"body\", v)", false}
+	for _, pos := range f10Positions {
+		pos := pos
+		fams = append(fams, &goprog.Family{
+			Name:    "F10.range-transfer/" + manyExit.name + "/" + pos,
+			Size:    1,
+			Timeout: 30 * time.Second,
+			Gen:     func(i uint64) goprog.Case { return f10Case(i, f10Ranges[0], manyExit, pos) },
+		})
 	}
+	return fams
 }
 
 // ---- range over an array-valued expression ----
@@ -168,20 +186,20 @@ type f10expr struct {
 }
 
 var f10Exprs = []f10expr{
-	{"variable", "", "a := [3]int{1, 2, 3}", "a", "a[1], a[2] = 100, 200", "a[i]"},
-	{"parenthesized-variable", "", "a := [3]int{1, 2, 3}", "(a)", "a[1], a[2] = 100, 200", "a[i]"},
-	{"struct-field", "type S_§ struct {\n\tn   int\n\tarr [3]int\n}\n", "s := S_§{0, [3]int{1, 2, 3}}", "s.arr", "s.arr[1], s.arr[2] = 100, 200", "s.arr[i]"},
-	{"field-through-pointer", "type S_§ struct {\n\tn   int\n\tarr [3]int\n}\n", "p := &S_§{0, [3]int{1, 2, 3}}", "p.arr", "p.arr[1], p.arr[2] = 100, 200", "p.arr[i]"},
-	{"nested-struct-field", "type I_§ struct {\n\tarr [3]int\n}\n\ntype O_§ struct {\n\tin I_§\n}\n", "o := O_§{I_§{[3]int{1, 2, 3}}}", "o.in.arr", "o.in.arr[1], o.in.arr[2] = 100, 200", "o.in.arr[i]"},
-	{"slice-element", "", "rows := [][3]int{{7, 8, 9}, {1, 2, 3}}\nk := 1", "rows[k]", "rows[k][1], rows[k][2] = 100, 200", "rows[k][i]"},
-	{"array-element", "", "grid := [2][3]int{{7, 8, 9}, {1, 2, 3}}\nk := 1", "grid[k]", "grid[k][1], grid[k][2] = 100, 200", "grid[k][i]"},
+	{"variable", "", "a := [3]int{1, 2, 3}", "a", "a[1] = 100\na[2] = 200", "a[i]"},
+	{"parenthesized-variable", "", "a := [3]int{1, 2, 3}", "(a)", "a[1] = 100\na[2] = 200", "a[i]"},
+	{"struct-field", "type S_§ struct {\n\tn   int\n\tarr [3]int\n}\n", "s := S_§{0, [3]int{1, 2, 3}}", "s.arr", "s.arr[1] = 100\ns.arr[2] = 200", "s.arr[i]"},
+	{"field-through-pointer", "type S_§ struct {\n\tn   int\n\tarr [3]int\n}\n", "p := &S_§{0, [3]int{1, 2, 3}}", "p.arr", "p.arr[1] = 100\np.arr[2] = 200", "p.arr[i]"},
+	{"nested-struct-field", "type I_§ struct {\n\tarr [3]int\n}\n\ntype O_§ struct {\n\tin I_§\n}\n", "o := O_§{I_§{[3]int{1, 2, 3}}}", "o.in.arr", "o.in.arr[1] = 100\no.in.arr[2] = 200", "o.in.arr[i]"},
+	{"slice-element", "", "rows := [][3]int{{7, 8, 9}, {1, 2, 3}}\nk := 1", "rows[k]", "rows[k][1] = 100\nrows[k][2] = 200", "rows[k][i]"},
+	{"array-element", "", "grid := [2][3]int{{7, 8, 9}, {1, 2, 3}}\nk := 1", "grid[k]", "grid[k][1] = 100\ngrid[k][2] = 200", "grid[k][i]"},
 	{"map-element", "", "m := map[string][3]int{\"k\": {1, 2, 3}}", "m[\"k\"]", "m[\"k\"] = [3]int{1, 100, 200}", "m[\"k\"][i]"},
-	{"dereferenced-pointer", "", "a := [3]int{1, 2, 3}\np := &a", "*p", "p[1], p[2] = 100, 200", "p[i]"},
-	{"call-result", "var g_§ = [3]int{1, 2, 3}\n\nfunc get_§() [3]int {\n\treturn g_§\n}\n", "", "get_§()", "g_§[1], g_§[2] = 100, 200", "g_§[i]"},
-	{"package-variable", "var g_§ = [3]int{1, 2, 3}\n", "", "g_§", "g_§[1], g_§[2] = 100, 200", "g_§[i]"},
-	{"closure-captured-variable", "", "a := [3]int{1, 2, 3}\nset := func() {\n\ta[1], a[2] = 100, 200\n}", "a", "set()", "a[i]"},
-	{"pointer-to-array", "", "a := [3]int{1, 2, 3}\np := &a", "p", "p[1], p[2] = 100, 200", "p[i]"},
-	{"array-of-strings-field", "type S_§ struct {\n\tarr [3]string\n}\n", "s := S_§{[3]string{\"a\", \"b\", \"c\"}}", "s.arr", "s.arr[1], s.arr[2] = \"X\", \"Y\"", "s.arr[i]"},
+	{"dereferenced-pointer", "", "a := [3]int{1, 2, 3}\np := &a", "*p", "a[1] = 100\na[2] = 200", "a[i]"},
+	{"call-result", "var g_§ = [3]int{1, 2, 3}\n\nfunc get_§() [3]int {\n\treturn g_§\n}\n", "", "get_§()", "g_§[1] = 100\ng_§[2] = 200", "g_§[i]"},
+	{"package-variable", "var g_§ = [3]int{1, 2, 3}\n", "", "g_§", "g_§[1] = 100\ng_§[2] = 200", "g_§[i]"},
+	{"closure-captured-variable", "", "a := [3]int{1, 2, 3}\nset := func() {\n\ta[1] = 100\n\ta[2] = 200\n}", "a", "set()", "a[i]"},
+	{"pointer-to-array", "", "a := [3]int{1, 2, 3}\np := &a", "p", "a[1] = 100\na[2] = 200", "a[i]"},
+	{"array-of-strings-field", "type S_§ struct {\n\tarr [3]string\n}\n", "s := S_§{[3]string{\"a\", \"b\", \"c\"}}", "s.arr", "s.arr[1] = \"X\"\ns.arr[2] = \"Y\"", "s.arr[i]"},
 }
 
 var f10Forms = []string{"i-only", "i,v", "_,v", "i,v-assigned-to-existing"}
@@ -197,7 +215,7 @@ func f10ArrayExprFamily() *goprog.Family {
 	return &goprog.Family{
 		Name:    "F10.range-array-expr",
 		Size:    uint64(len(cs)),
-		Timeout: 6 * time.Second,
+		Timeout: 2 * time.Second,
 		Gen: func(i uint64) goprog.Case {
 			c := cs[i]
 			x, form := f10Exprs[c.x], f10Forms[c.f]
